@@ -21,7 +21,7 @@ Lemma loops_bitand w n a b : 0 < w -> wf w n a -> wf w n b ->
   forall fuel, (n <= fuel)%nat -> Loops.bitand w (Z.of_nat n) fuel a b = Done (bitand a b).
 Proof.
   intros Hw [Ha _] [Hb _] fuel Hf. subst n. unfold Loops.bitand. rewrite Nat2Z.id.
-  rewrite (loop_map2_all u_and a b); try first [assumption | apply repeat_length | reflexivity].
+  rewrite (loop_map2_all_c u_and a b); try first [assumption | apply repeat_length | reflexivity | (intros; zbool_lia)].
   - cbn [bind]. rewrite scan2_map2. reflexivity.
   - intros out j Hj Hl. body_red. rewrite !arr_get_nat by lia. cbn [bind].
     rewrite arr_set_nat by lia. reflexivity.
@@ -31,7 +31,7 @@ Lemma loops_bitor w n a b : 0 < w -> wf w n a -> wf w n b ->
   forall fuel, (n <= fuel)%nat -> Loops.bitor w (Z.of_nat n) fuel a b = Done (bitor a b).
 Proof.
   intros Hw [Ha _] [Hb _] fuel Hf. subst n. unfold Loops.bitor. rewrite Nat2Z.id.
-  rewrite (loop_map2_all u_or a b); try first [assumption | apply repeat_length | reflexivity].
+  rewrite (loop_map2_all_c u_or a b); try first [assumption | apply repeat_length | reflexivity | (intros; zbool_lia)].
   - cbn [bind]. rewrite scan2_map2. reflexivity.
   - intros out j Hj Hl. body_red. rewrite !arr_get_nat by lia. cbn [bind].
     rewrite arr_set_nat by lia. reflexivity.
@@ -41,7 +41,7 @@ Lemma loops_bitxor w n a b : 0 < w -> wf w n a -> wf w n b ->
   forall fuel, (n <= fuel)%nat -> Loops.bitxor w (Z.of_nat n) fuel a b = Done (bitxor a b).
 Proof.
   intros Hw [Ha _] [Hb _] fuel Hf. subst n. unfold Loops.bitxor. rewrite Nat2Z.id.
-  rewrite (loop_map2_all u_xor a b); try first [assumption | apply repeat_length | reflexivity].
+  rewrite (loop_map2_all_c u_xor a b); try first [assumption | apply repeat_length | reflexivity | (intros; zbool_lia)].
   - cbn [bind]. rewrite scan2_map2. reflexivity.
   - intros out j Hj Hl. body_red. rewrite !arr_get_nat by lia. cbn [bind].
     rewrite arr_set_nat by lia. reflexivity.
@@ -51,7 +51,7 @@ Lemma loops_not w n a : 0 < w -> wf w n a ->
   forall fuel, (n <= fuel)%nat -> Loops.not_ w (Z.of_nat n) fuel a = Done (bitnot w a).
 Proof.
   intros Hw [Ha _] fuel Hf. subst n. unfold Loops.not_. rewrite Nat2Z.id.
-  rewrite (loop_map1_all (u_not w) a); try first [assumption | apply repeat_length | reflexivity].
+  rewrite (loop_map1_all_c (u_not w) a); try first [assumption | apply repeat_length | reflexivity | (intros; zbool_lia)].
   intros out j Hj Hl. body_red. rewrite !arr_get_nat by lia. cbn [bind].
   rewrite arr_set_nat by lia. reflexivity.
 Qed.
